@@ -3,6 +3,7 @@ package rules
 import (
 	"fmt"
 	"go/token"
+	"go/types"
 	"strings"
 
 	"golang.org/x/tools/go/ssa"
@@ -115,7 +116,7 @@ func ruleW5(w *world.World, r *report.RuleResult) {
 				chains = append(chains, chain{root, append(append([]ssa.CallInstruction{}, path...), c), append(append([]*ssa.Function{}, fns...), fn)})
 				continue
 			}
-			if world.InModule(callee) && callee.Parent() != nil && world.Outermost(callee) == world.Outermost(fn) {
+			if world.InModule(callee) && callee.Blocks != nil && callee != fn {
 				search(callee, append(path, c), append(fns, fn), depth+1, root)
 			}
 		}
@@ -166,12 +167,18 @@ func ruleCL(w *world.World, r *report.RuleResult) {
 		r.Err = err
 		return
 	}
-	// the connection loop: function with a net.Conn parameter that (directly or via an immediately
-	// invoked closure) calls the dispatcher
+	// the connection loop: the function that reads request messages (internal.ReadMessage) and from
+	// which the dispatcher is reached, directly, through an immediately invoked closure or a helper
 	var loop *ssa.Function
 	var cmdCall ssa.Instruction
 	for _, fn := range w.FuncsIn("sugardb") {
-		if fn.Parent() != nil || len(fn.Params) < 2 || !world.TypeIs(fn.Params[len(fn.Params)-1].Type(), "net", "Conn") {
+		reads := false
+		for _, c := range world.Calls(fn) {
+			if f := c.Common().StaticCallee(); f != nil && f.Name() == "ReadMessage" {
+				reads = true
+			}
+		}
+		if !reads {
 			continue
 		}
 		for _, c := range world.Calls(fn) {
@@ -182,13 +189,13 @@ func ruleCL(w *world.World, r *report.RuleResult) {
 			if callee == nil {
 				continue
 			}
-			if callee == disp || (callee.Parent() == fn && w.ReachCalls(callee).In[disp]) {
+			if callee == disp || (world.InModule(callee) && w.ReachCalls(callee).In[disp]) {
 				loop, cmdCall = fn, c
 			}
 		}
 	}
 	if loop == nil {
-		r.Err = fmt.Errorf("connection loop (function with a net.Conn parameter calling the dispatcher) not found")
+		r.Err = fmt.Errorf("connection loop (function reading request messages and calling the dispatcher) not found")
 		return
 	}
 	fname := world.FuncName(loop)
@@ -209,6 +216,11 @@ func ruleCL(w *world.World, r *report.RuleResult) {
 		}
 		return false
 	}
+	// answers: a module helper every return of which is reached only after a write to the connection
+	// (or over the empty-reply edge) counts as a write at its call site
+	answersMemo := map[*ssa.Function]bool{}
+	var answers func(f *ssa.Function, depth int) bool
+	var eg func(b *ssa.BasicBlock, si int) world.Facts
 	gen := func(in ssa.Instruction) world.Facts {
 		if in == cmdCall {
 			return HANDLED
@@ -216,7 +228,39 @@ func ruleCL(w *world.World, r *report.RuleResult) {
 		if isWrite(in) {
 			return DONE
 		}
+		if c, ok := in.(*ssa.Call); ok {
+			if f := c.Call.StaticCallee(); f != nil && world.InModule(f) && f.Blocks != nil && answers(f, 0) {
+				return DONE
+			}
+		}
 		return 0
+	}
+	answers = func(f *ssa.Function, depth int) bool {
+		if v, ok := answersMemo[f]; ok {
+			return v
+		}
+		answersMemo[f] = false
+		if depth > 2 {
+			return false
+		}
+		hasWriter := false
+		for _, p := range f.Params {
+			if _, isIface := p.Type().Underlying().(*types.Interface); isIface || world.TypeIs(p.Type(), "net", "Conn") {
+				hasWriter = true
+			}
+		}
+		if !hasWriter {
+			return false
+		}
+		hm := world.Must(f, eg, gen, nil)
+		ok := true
+		for _, ret := range world.Returns(f) {
+			if world.FactsAt(hm, ret, gen, nil)&DONE == 0 {
+				ok = false
+			}
+		}
+		answersMemo[f] = ok
+		return ok
 	}
 	kill := func(in ssa.Instruction) world.Facts {
 		if in == cmdCall {
@@ -224,7 +268,7 @@ func ruleCL(w *world.World, r *report.RuleResult) {
 		}
 		return 0
 	}
-	eg := func(b *ssa.BasicBlock, si int) world.Facts {
+	eg = func(b *ssa.BasicBlock, si int) world.Facts {
 		iff := world.IfOf(b)
 		if iff == nil {
 			return 0
